@@ -361,6 +361,11 @@ impl IoLoop {
         options: ConnectionOptions<Auth>,
         have_written_to_socket: bool,
     ) -> Result<(TuneOk, FieldTable)> {
+        // The protocol header is queued only now: while TLS is being negotiated there is
+        // nothing of ours to write, and a buffer that is not empty would keep the socket
+        // registered (and re-armed) as writable, spinning the loop while TLS waits for
+        // the peer.
+        self.inner.outbuf.append(OutputBuffer::with_protocol_header());
         let mut state = HandshakeState::Start(options);
         let result = self.run_io_loop(
             stream,
@@ -824,7 +829,7 @@ struct Inner {
 impl Inner {
     fn new(heartbeats: HeartbeatTimers, mio_channel_bound: usize) -> Self {
         Inner {
-            outbuf: SealableOutputBuffer::new(OutputBuffer::with_protocol_header()),
+            outbuf: SealableOutputBuffer::new(OutputBuffer::empty()),
             heartbeats,
             chan_slots: ChannelSlots::new(),
             mio_channel_bound,
